@@ -488,7 +488,9 @@ fn c11_frame(tc: &TransCtx, post: &Book, sink: &mut Sink) {
             }
             "version-record"
         } else {
-            "foreign-key"
+            // a key outside the known namespaces: no property speaks about it
+            sink.c("storage/keys-outside-the-known-namespaces-changed");
+            continue;
         };
         sink.v(
             "C11",
@@ -563,8 +565,9 @@ pub fn state_invariants(b: &Book, sink: &mut Sink) -> Vec<(&'static str, String,
     for (k, e) in &b.undecodable {
         out.push(("C11", "C11/state/undecodable".into(), k.clone(), format!("{k}: {e}")));
     }
-    for k in &b.foreign_keys {
-        out.push(("C11", "C11/state/foreign-key".into(), k.clone(), k.clone()));
+    // keys outside the four known namespaces are not mentioned by any property: counted, not judged
+    for _k in &b.foreign_keys {
+        sink.c("storage/keys-outside-the-known-namespaces");
     }
     let info = match &b.info {
         Some(i) => i,
@@ -1089,7 +1092,9 @@ fn c02_c03_match(tc: &TransCtx, sink: &mut Sink) {
                         }
                     }
                 }
-                if !r.fee_pairs.is_empty() {
+                // (only where the quote denomination is not also one of the ask's denominations)
+                let overlap = ask.base == bid.quote_denom || matches!(&ask.class, AskClass::Ready { denom, .. } if denom == &bid.quote_denom);
+                if !r.fee_pairs.is_empty() && !overlap {
                     let out_q: i128 = -tc.net.get(&(CONTRACT.to_string(), bid.quote_denom.clone())).copied().unwrap_or(0);
                     if post.bids.get(bid_id).is_none() {
                         let want = bid.rem_quote().unwrap_or(0) as i128 + bid.rem_fee().unwrap_or(0) as i128;
@@ -1859,24 +1864,15 @@ fn c12_modify(tc: &TransCtx, m: &Modify, sink: &mut Sink) {
                     if post != &exp {
                         sink.v("C12", format!("C12/supplied-field-not-installed/{name}"), format!("requested {exp:?}, stored {post:?}"));
                     }
-                    if parse_dec(r).is_none() && dec_is_clear(r) {
-                        sink.v("C12", format!("C12/unparsable-rate-installed/{name}"), r.clone());
-                    }
-                    if !valid_addr(a) {
-                        sink.v("C12", format!("C12/invalid-account-installed/{name}"), a.clone());
-                    }
+                    // (whether an unparsable rate or an invalid account may be installed is not part of C12's statement)
                 }
             }
-            _ => sink.v("C12", format!("C12/half-supplied-fee-pair-accepted/{name}"), format!("rate {rate:?} account {acct:?}")),
+            // a half-supplied pair: the statement does not say what an accepted one must do
+            _ => sink.cs(format!("no-verdict/modify/half-supplied-{name}-pair-accepted")),
         }
     };
     chk_fee("ask_fee", &m.ask_fee_rate, &m.ask_fee_account, &pre.ask_fee_info, &post.ask_fee_info, sink);
     chk_fee("bid_fee", &m.bid_fee_rate, &m.bid_fee_account, &pre.bid_fee_info, &post.bid_fee_info, sink);
-    for a in post.approvers.iter().chain(post.executors.iter()) {
-        if !valid_addr(a) {
-            sink.v("C12", "C12/invalid-address-installed".into(), a.clone());
-        }
-    }
     // C05: the role lists are the configured ones (what accepted configuration requests installed)
     if let Some(v) = &m.executors {
         if v != &post.executors {
